@@ -548,8 +548,15 @@ def rule_climb(ctx, m, ev):
                 continue
             for (s_, k_, p_) in dataflow.successors(ev, blocks[bid]):
                 c2 = checked
-                if k_ in ("true", "false") and p_ is not None and is_rank_test(p_):
-                    c2 = checked or (k_ == "true")
+                if k_ in ("true", "false") and p_ is not None:
+                    # !(a < b) taken on its false edge is a < b taken on its true edge
+                    c_ = ev.strip(p_)
+                    want = k_ == "true"
+                    while ev.nodes[c_]["k"] == "UnaryOperator" and ev.nodes[c_]["op"] == "!":
+                        c_ = ev.strip(ev.nodes[c_]["ch"][0])
+                        want = not want
+                    if is_rank_test(c_):
+                        c2 = checked or want
                 work.append((s_, c2))
         ctx.note_fn(ev)
         r.ob(ev.q, ev.text(x)[:60], bad is None, "every path from this application back to the loop head passes `%s < operator under the cursor`" % prm[0]["n"] if bad is None else
